@@ -179,7 +179,11 @@ def r2_neighbours(ctx, repo, cls, kind):
     alias = [s for s in stmts_of(add) if isinstance(s, ast.Assign) and len(s.targets) == 1 and isinstance(s.targets[0], ast.Name)
              and access_path(s.value) == ind + ".vector"]
     if not copies:
-        if alias:
+        moved = [s for s in body_stmts if (isinstance(s, ast.AugAssign) and isinstance(s.target, ast.Subscript) and access_path(s.target.value) == ind + ".vector")
+                 or (isinstance(s, ast.Assign) and len(s.targets) == 1 and isinstance(s.targets[0], ast.Subscript) and access_path(s.targets[0].value) == ind + ".vector")]
+        if moved:
+            ctx.violated("R2", construct, where(mod, moved[0]), "the displacement is applied to the parent's own vector (the child vector is an alias, not a copy): displacing it moves the parent", key="fresh-copy")
+        elif alias:
             ctx.violated("R2", construct, where(mod, alias[0]), "child vector is an alias of the parent's vector, not a copy: displacing it moves the parent", key="fresh-copy")
         elif any_copy:
             ctx.violated("R2", construct, where(mod, any_copy[0]), "the parent vector is copied outside the innermost loop: successive children share one vector and accumulate displacements", key="fresh-copy")
@@ -315,6 +319,16 @@ def r3_sensitivity(ctx, repo, cls):
         return
     ploop = ploops[0]
     ind = ploop.target.id
+    # the sensitivity as a value term: sum([|f0(parent) - f0(child)| for child in parent.children]) however it is spelt
+    # (accumulating loop, comprehension, cached in a local or not)
+    state = _formula_by_term(ctx, mod, run, ploop, ind, construct)
+    if state is False:
+        return
+    if state is not None:
+        total, anchor = state
+        ctx.holds("R3", construct, where(mod, anchor), "sensitivity = %s" % total, key="formula")
+        _r3_writes(ctx, mod, run, ploop, ind, construct, total)
+        return
     # child loop and the accumulated term
     cloops = [s for s in stmts_of(ploop) if isinstance(s, ast.For) and access_path(s.iter) == ind + ".children" and isinstance(s.target, ast.Name)]
     if len(cloops) != 1:
@@ -363,6 +377,65 @@ def r3_sensitivity(ctx, repo, cls):
     total = "sum(%s)" % acc if acc_kind == "list" else acc
     ctx.holds("R3", construct, where(mod, cloop), "sensitivity = %s over the children with term %s, reset per design" % (total, text(term)), key="formula")
 
+    _r3_writes(ctx, mod, run, ploop, ind, construct, total)
+
+
+ABS = ("abs", "math.fabs", "np.abs", "np.fabs", "fabs", "numpy.abs", "numpy.fabs", "np.absolute")
+
+
+def _formula_by_term(ctx, mod, run, ploop, ind, construct):
+    """(text of the total, anchor) when the sum is recognised and right, False when a violation was reported,
+    None when the term-based reading does not apply"""
+    TR = Terms(run)
+    found = None
+    for s in stmts_of(ploop):
+        if isinstance(s, (ast.For, ast.While, ast.If)):
+            continue
+        for c in calls_in(s):
+            if access_path(c.func) == "sum" and len(c.args) == 1 and not c.keywords:
+                v = TR.expand(c, at=s)
+                a = v.args[0] if isinstance(v, ast.Call) and v.args else None
+                if isinstance(a, (ast.ListComp, ast.GeneratorExp)) and len(a.generators) == 1 and isinstance(a.generators[0].target, ast.Name):
+                    found = (s, c, v, a)
+                    break
+        if found:
+            break
+    if found is None:
+        return None
+    s, c, v, comp = found
+    g = comp.generators[0]
+    ch = g.target.id
+    it = g.iter
+    if access_path(it) != ind + ".children":
+        base = it
+        while isinstance(base, ast.Subscript) and isinstance(base.slice, ast.Slice):
+            base = base.value
+        if base is not it and access_path(base) == ind + ".children":
+            ctx.violated("R3", construct, where(mod, s), "the sum runs over %s, not over all children of the design" % text(it), key="formula")
+            return False
+        return None
+    if g.ifs:
+        ctx.violated("R3", construct, where(mod, s), "the sum skips children (%s): not every neighbour contributes" % " and ".join(text(i) for i in g.ifs), key="formula")
+        return False
+    t = comp.elt
+    want = {"%s.costs[0]" % ind, "%s.costs[0]" % ch}
+    is_abs = isinstance(t, ast.Call) and access_path(t.func) in ABS and len(t.args) == 1
+
+    def cost_diff(d):
+        return isinstance(d, ast.BinOp) and isinstance(d.op, ast.Sub) and all(
+            isinstance(x, ast.Subscript) and (access_path(x.value) or "").endswith(".costs") or (access_path(x.value) or "").endswith(".costs_signed") for x in (d.left, d.right))
+    if is_abs and isinstance(t.args[0], ast.BinOp) and isinstance(t.args[0].op, ast.Sub) and {text(t.args[0].left), text(t.args[0].right)} == want:
+        return text(c), s
+    if is_abs and cost_diff(t.args[0]):
+        ctx.violated("R3", construct, where(mod, s), "per-child term is |%s|, expected |f0(parent) - f0(child)| i.e. %s" % (text(t.args[0]), sorted(want)), key="formula")
+        return False
+    if cost_diff(t):
+        ctx.violated("R3", construct, where(mod, s), "per-child term %s is not an absolute difference: deviations of opposite sign cancel" % text(t), key="formula")
+        return False
+    return None
+
+
+def _r3_writes(ctx, mod, run, ploop, ind, construct, total):
     # writes of the total into costs / costs_signed on every path of the design-loop body
     fake = ast.FunctionDef(name="body", args=run.args, body=ploop.body, decorator_list=[], returns=None, type_comment=None, lineno=ploop.lineno, col_offset=0)
     n = 0
